@@ -10,9 +10,9 @@ import (
 	"crypto/ecdh"
 	"crypto/sha1"
 	"crypto/sha256"
-	"hash"
 	"encoding/binary"
 	"fmt"
+	"hash"
 	"io"
 	"math/big"
 	"math/rand/v2"
@@ -42,9 +42,17 @@ type Scenario struct {
 	Rekeys   int    `json:"rekeys"`
 	Honest   int    `json:"honest,omitempty"` // lying-signer: number of honestly signed exchanges
 	Legacy   string `json:"legacy,omitempty"` // legacy: role of the scripted non-strict peer (client | server)
-	Gex      Gex    `json:"gex"`
-	FragDen  int    `json:"frag_den"`
-	Switch   int    `json:"switch_den"`
+	// scripted peer variants (Kind legacy): the peer offers strict KEX too,
+	// sets first_kex_packet_follows (1: with a wrong guess, 2: with a right
+	// one), and a packet of type InsKind is inserted in front of its
+	// InsAt-th plaintext packet
+	PeerStrict bool `json:"peer_strict,omitempty"`
+	Follows    int  `json:"follows,omitempty"`
+	InsAt      int  `json:"ins_at,omitempty"`
+	InsKind    int  `json:"ins_kind,omitempty"`
+	Gex        Gex  `json:"gex"`
+	FragDen    int  `json:"frag_den"`
+	Switch     int  `json:"switch_den"`
 }
 
 var hostKeys = []string{"ed25519", "ecdsa", "ecdsap384", "ecdsap521", "rsa"}
@@ -185,6 +193,21 @@ func gen(r *rand.Rand, prop, tier string, index int) any {
 		s.Kind = "legacy"
 		s.Legacy = []string{"client", "server"}[r.IntN(2)]
 		s.NoiseDen = []int{0, 1, 2, 4}[r.IntN(4)]
+		if r.IntN(2) == 0 {
+			s.Follows = 1
+			if s.Legacy == "client" && r.IntN(3) == 0 {
+				s.Follows = 2
+			}
+		}
+		if r.IntN(2) == 0 {
+			// the scripted peer offers strict KEX as well; most of these runs
+			// carry one insertion before its NEWKEYS
+			s.PeerStrict = true
+			if r.IntN(4) > 0 {
+				s.InsAt = r.IntN(4)
+				s.InsKind = []int{2, 4, 3, 192, 7}[r.IntN(5)]
+			}
+		}
 	case k < 7:
 		s.Kind = "clean" // strict on: sequence numbers restart at every NEWKEYS (checked by the wire monitor)
 		s.Rekeys = 1 + r.IntN(3)
@@ -237,7 +260,25 @@ func enumerate(prop, tier string, i int) any {
 	per := 2 * numPlain * len(enumActions) * nsched
 	c := i / per
 	if c >= len(enumConfigs) {
-		return nil
+		// then every single insertion against the scripted strict peer:
+		// role x first_kex_packet_follows (none, wrong guess, right guess)
+		// x position x kind
+		k := i - per*len(enumConfigs)
+		kinds := []int{2, 4, 3, 192, 7}
+		if k >= 2*3*4*len(kinds) {
+			return nil
+		}
+		s := &Scenario{Kind: "legacy", Kex: "curve25519-sha256", HostKey: "ed25519", Switch: 4, PeerStrict: true}
+		s.Legacy = []string{"client", "server"}[k%2]
+		k /= 2
+		s.Follows = k % 3
+		k /= 3
+		s.InsAt = k % 4
+		s.InsKind = kinds[k/4]
+		if s.Follows == 2 && s.Legacy == "server" {
+			s.Follows = 1
+		}
+		return s
 	}
 	j := i % per
 	s := enumConfigs[c]
